@@ -297,6 +297,7 @@ Record options := mkO {
   o_action : action;
   o_revcomp : bool;
   o_poly_a : bool;
+  o_poly_t : bool;                    (* poly-T head trimming (PolyATrimmer(revcomp=True)): R2 of a pair only *)
   o_length : option Z;
   o_trim_n : bool;
   o_length_tag : option str;
@@ -321,7 +322,7 @@ Record options := mkO {
 
 (** ---- the modifier stages.  Each stage is  read * minfo -> read * minfo. *)
 Inductive stage :=
-  | StCut (n : Z) | StNextseq (c : Z) | StQual (cf cb : Z) | StAdapters | StPolyA | StLength (n : Z)
+  | StCut (n : Z) | StNextseq (c : Z) | StQual (cf cb : Z) | StAdapters | StPolyA | StPolyT | StLength (n : Z)
   | StTrimN | StLengthTag (tag : str) | StStripSuffix (s : str) | StPrefixSuffix | StZeroCap.
 
 Definition qual_or_empty (r : read) : str := match rqual r with Some q => q | None => [] end.
@@ -357,6 +358,10 @@ Definition apply_stage (o : options) (st : stage) (ri : read * minfo) : read * m
   | StPolyA =>
       let idx := poly_a_trim_index (rseq r) false in
       (rslice None (Some idx) r, mkI (i_matches i) (i_is_rc i) (i_original i) (i_qtrimmed i) (Some (rlen r - idx)) false)
+  | StPolyT =>
+      (* PolyATrimmer(revcomp=True): trimmed_bases[index] += 1; return record[index:] *)
+      let idx := poly_a_trim_index (rseq r) true in
+      (rslice (Some idx) None r, mkI (i_matches i) (i_is_rc i) (i_original i) (i_qtrimmed i) (Some idx) false)
   | StLength n =>
       (* Shortener, modifiers.py:891-895 *)
       (if 0 <=? n then rslice None (Some n) r else rslice (Some n) None r, i)
@@ -380,7 +385,7 @@ Definition stages_of_kind (o : options) (k : kind) : list stage :=
   | KNextseq => match o_nextseq o with Some c => [StNextseq c] | None => [] end
   | KQual => match o_qcut o with Some (cf, cb) => [StQual cf cb] | None => [] end
   | KAdapters => match o_adapters o with [] => [] | _ => [StAdapters] end
-  | KPolyA => if o_poly_a o then [StPolyA] else []
+  | KPolyA => (if o_poly_a o then [StPolyA] else []) ++ (if o_poly_t o then [StPolyT] else [])
   | KLength => match o_length o with Some n => [StLength n] | None => [] end
   | KTrimN => if o_trim_n o then [StTrimN] else []
   | KLengthTag => match o_length_tag o with Some t => [StLengthTag t] | None => [] end
